@@ -123,6 +123,38 @@ static void detect_arm_features(void) {
 
 #endif
 
+#ifdef CARQUET_VERIF
+/* Verification hooks (off by default): simulated CPU capability cap
+ * (0 = scalar, 1 = SSE4.2, 2 = AVX2, 3 = AVX-512; never above the host)
+ * and a reset of the lazily initialised detection state. */
+static int g_verif_cpu_cap = 3;
+
+void carquet_verif_set_cpu_cap(int level) {
+    g_verif_cpu_cap = level;
+}
+
+void carquet_verif_reset_detect(void) {
+    g_initialized = 0;
+}
+
+static void carquet_verif_apply_cpu_cap(void) {
+    if (g_verif_cpu_cap < 3) {
+        g_cpu_info.has_avx512f = false;
+        g_cpu_info.has_avx512bw = false;
+        g_cpu_info.has_avx512vl = false;
+        g_cpu_info.has_avx512vbmi = false;
+    }
+    if (g_verif_cpu_cap < 2) {
+        g_cpu_info.has_avx2 = false;
+        g_cpu_info.has_avx = false;
+    }
+    if (g_verif_cpu_cap < 1) {
+        g_cpu_info.has_sse42 = false;
+        g_cpu_info.has_sse41 = false;
+    }
+}
+#endif /* CARQUET_VERIF */
+
 carquet_status_t carquet_init(void) {
     /* Fast path: already initialized */
     if (g_initialized) {
@@ -136,6 +168,11 @@ carquet_status_t carquet_init(void) {
     detect_x86_features();
 #elif defined(__aarch64__) || defined(_M_ARM64) || defined(__arm__) || defined(_M_ARM)
     detect_arm_features();
+#endif
+
+#ifdef CARQUET_VERIF
+    /* Verification hook: mask detected features by the simulated CPU cap. */
+    carquet_verif_apply_cpu_cap();
 #endif
 
     /* Initialize compression lookup tables.
